@@ -147,6 +147,8 @@ impl<'grammar> TypeInferencer<'grammar> {
 
     fn infer_types(mut self) -> NormResult<Types> {
         let ids: Vec<NonterminalString> = self.nonterminals.keys().cloned().collect();
+        #[cfg(lalrpop_verif)]
+        let ids = crate::verif_hooks::order(ids);
 
         for id in &ids {
             self.nonterminal_type(id)?;
